@@ -123,7 +123,12 @@ bool splinetable<Alloc>::read_fits(const std::string& filePath){
 			fits_report_error(stderr, error);
 		}
 	} cleanup(fits);
-	return(read_fits_core(fits, filePath));
+	try{
+		return(read_fits_core(fits, filePath));
+	}catch(...){
+		reset(); //do not keep a half-read table
+		throw;
+	}
 }
 	
 template<typename Alloc>
@@ -149,7 +154,12 @@ bool splinetable<Alloc>::read_fits_mem(void* buffer, size_t buffer_size){
 			fits_report_error(stderr, error);
 		}
 	} cleanup(fits);
-	return(read_fits_core(fits, "memory 'file'"));
+	try{
+		return(read_fits_core(fits, "memory 'file'"));
+	}catch(...){
+		reset(); //do not keep a half-read table
+		throw;
+	}
 }
 	
 template<typename Alloc>
@@ -286,8 +296,10 @@ bool splinetable<Alloc>::read_fits_core(fitsfile* fits, const std::string& fileP
 	//arrays which don't depend on the orders or numbers of knots before the
 	//ones which do
 	knots = allocate<double_ptr>(ndim);
+	std::fill(knots,knots+ndim,nullptr);
 	nknots = allocate<uint64_t>(ndim);
 	extents = allocate<double_ptr>(ndim);
+	std::fill(extents,extents+ndim,nullptr);
 	extents[0] = allocate<double>(2*ndim);
 	
 	//Read the coefficient table
